@@ -760,6 +760,36 @@ func runStr(c *h.Ctx, sc StrCase) {
 		c.Fail("C16/parse/panic", "Parse(%q) panicked: %v", sc.S, v)
 		return
 	}
+	// the other way from a string to a key: ToPubKey. Whatever string it draws a key from is the canonical identifier
+	// of that key, and it draws one exactly when Parse + PubKey do
+	{
+		var tk crypto.PubKey
+		var terr error
+		if pn, v, _ := h.Try(func() { tk, terr = did.ToPubKey(sc.S) }); pn {
+			c.Fail("C16/topubkey/panic", "ToPubKey(%q) panicked: %v", sc.S, v)
+			return
+		}
+		if terr == nil && tk != nil {
+			if canon, cerr := did.FromPubKey(tk); cerr != nil || canon.String() != sc.S {
+				c.Fail("C16/canonical/alias/topubkey", "ToPubKey(%q) yields a key whose canonical identifier is %q (%v): two identifiers for one principal", sc.S, canon.String(), cerr)
+				return
+			}
+		}
+		viaParse := false
+		if err == nil {
+			if pn, _, _ := h.Try(func() {
+				if pk, perr := d.PubKey(); perr == nil && pk != nil {
+					viaParse = true
+				}
+			}); pn {
+				viaParse = false
+			}
+		}
+		if (terr == nil) != viaParse {
+			c.Fail("C16/topubkey/disagrees-with-parse", "ToPubKey(%q) succeeds=%v, Parse + PubKey succeed=%v", sc.S, terr == nil, viaParse)
+			return
+		}
+	}
 	want := refParse(sc.S)
 	if (err == nil) != want {
 		// only the reject direction is fixed by the statement for arbitrary
@@ -1073,7 +1103,7 @@ func TestDecoratedIdentifiers(t *testing.T) {
 		mb := base[len("did:key:"):]
 		forms := []string{
 			"did:key:1:" + mb, "did:key:01:" + mb, "did:key:001:" + mb, "did:key:0:" + mb, "did:key:2:" + mb, "did:key:1.0:" + mb, "did:key:v1:" + mb, "did:key::" + mb, "did:key:1::" + mb,
-			base + "#" + mb, base + "#", base + "#key-1", base + "?versionId=1", base + "?", base + "/", base + "/path", base + ";service=x", base + ":", base + ":1",
+			base + "#" + mb, base + "#" + base, base + "#" + mb + "#" + mb, base + "#" + mb[1:], base + "?" + mb, base + "/" + mb, base + "#", base + "#key-1", base + "?versionId=1", base + "?", base + "/", base + "/path", base + ";service=x", base + ":", base + ":1",
 			"DID:KEY:" + mb, "Did:Key:" + mb, "did:KEY:" + mb, "did:key:" + strings.ToUpper(mb[:1]) + mb[1:],
 			" " + base, base + " ", base + "\n", base + "\r\n", "\t" + base, base + "\x00", "\ufeff" + base, "did:key: " + mb, "did:key:" + mb[:5] + " " + mb[5:], "did:key:" + mb[:5] + "\n" + mb[5:],
 			"did%3Akey%3A" + mb, "did:key:%7A" + mb[1:], "did:key:" + mb + "%20",
